@@ -49,6 +49,10 @@ func init() {
 			{Name: "loop-sends-without-read", File: "osmpbf/decode.go", Find: "\t\t\tblobHeader, blob, err = dec.readFileBlock(sizeBuf, headerBuf, blobBuf)\n\t\t\tif err == nil && blobHeader.GetType() != osmDataType {", Replace: "\t\t\tif offset > 0 || blob == nil {\n\t\t\t\tblobHeader, blob, err = dec.readFileBlock(sizeBuf, headerBuf, blobBuf)\n\t\t\t}\n\t\t\tif err == nil && blobHeader.GetType() != osmDataType {", ExpectRule: "B2", ExpectConstruct: "capture"},
 			{Name: "method-reader-first-passed-for-header-streams", File: "osmpbf/decode.go", Find: "\n\t// start reading OSMData\n\tgo func() {\n\t\tdefer dec.wg.Done()\n\t\tdefer func() {\n\t\t\tfor _, input := range dec.inputs {\n\t\t\t\tclose(input)\n\t\t\t}\n\t\t}()\n\n\t\tvar (\n\t\t\ti   int\n\t\t\terr error\n\t\t)\n\n\t\t// On restart the first block may not be a header and will need to be\n\t\t// added to the first input.\n\t\tif blobHeader.GetType() != osmHeaderType {\n\t\t\tdec.inputs[0] <- iPair{Offset: 0, Blob: blob, Err: err}\n\n\t\t\ti = (i + 1) % n\n\t\t}\n\n\t\tfor dec.ctx.Err() == nil && err == nil {\n\t\t\tinput := dec.inputs[i]\n\t\t\ti = (i + 1) % n\n\n\t\t\toffset := dec.bytesRead\n\t\t\tblobHeader, blob, err = dec.readFileBlock(sizeBuf, headerBuf, blobBuf)\n\t\t\tif err == nil && blobHeader.GetType() != osmDataType {\n\t\t\t\terr = fmt.Errorf(\"unexpected fileblock of type %s\", blobHeader.GetType())\n\t\t\t}\n\n\t\t\tpair := iPair{Offset: offset, Blob: blob}\n\t\t\tif err != nil {\n\t\t\t\tpair = iPair{Err: err}\n\t\t\t}\n\n\t\t\tselect {\n\t\t\tcase input <- pair:\n\t\t\tcase <-dec.ctx.Done():\n\t\t\t}\n\t\t}\n\t}()\n\n\tgo func() {\n\t\tdefer dec.wg.Done()\n\t\tdefer func() {\n\t\t\tclose(dec.serializer)\n\t\t\tdec.cancel()\n\t\t}()\n\n\t\tfor i := 0; ; i = (i + 1) % n {\n\t\t\toutput := dec.outputs[i]\n\n\t\t\tvar p oPair\n\t\t\tselect {\n\t\t\tcase p = <-output:\n\t\t\tcase <-dec.ctx.Done():\n\t\t\t\treturn\n\t\t\t}\n\n\t\t\tselect {\n\t\t\tcase dec.serializer <- p:\n\t\t\tcase <-dec.ctx.Done():\n\t\t\t\treturn\n\t\t\t}\n\n\t\t\tif p.Err != nil {\n\t\t\t\treturn\n\t\t\t}\n\t\t}\n\t}()\n\n\treturn nil\n}", Replace: "\n\t// the first block is left over for the reader when it is not the header\n\tfirst := blob\n\n\t// start reading OSMData\n\tgo dec.readBlocks(n, first, sizeBuf, headerBuf, blobBuf)\n\n\tgo func() {\n\t\tdefer dec.wg.Done()\n\t\tdefer func() {\n\t\t\tclose(dec.serializer)\n\t\t\tdec.cancel()\n\t\t}()\n\n\t\tfor i := 0; ; i = (i + 1) % n {\n\t\t\toutput := dec.outputs[i]\n\n\t\t\tvar p oPair\n\t\t\tselect {\n\t\t\tcase p = <-output:\n\t\t\tcase <-dec.ctx.Done():\n\t\t\t\treturn\n\t\t\t}\n\n\t\t\tselect {\n\t\t\tcase dec.serializer <- p:\n\t\t\tcase <-dec.ctx.Done():\n\t\t\t\treturn\n\t\t\t}\n\n\t\t\tif p.Err != nil {\n\t\t\t\treturn\n\t\t\t}\n\t\t}\n\t}()\n\n\treturn nil\n}\n\nfunc (dec *decoder) readBlocks(n int, first *osmpbf.Blob, sizeBuf, headerBuf, blobBuf []byte) {\n\tvar blobHeader *osmpbf.BlobHeader\n\tvar blob *osmpbf.Blob\n\tdefer dec.wg.Done()\n\tdefer func() {\n\t\tfor _, input := range dec.inputs {\n\t\t\tclose(input)\n\t\t}\n\t}()\n\n\tvar (\n\t\ti   int\n\t\terr error\n\t)\n\n\t// On restart the first block may not be a header and will need to be\n\t// added to the first input.\n\tif first != nil {\n\t\tdec.inputs[0] <- iPair{Offset: 0, Blob: first}\n\n\t\ti = (i + 1) % n\n\t}\n\n\tfor dec.ctx.Err() == nil && err == nil {\n\t\tinput := dec.inputs[i]\n\t\ti = (i + 1) % n\n\n\t\toffset := dec.bytesRead\n\t\tblobHeader, blob, err = dec.readFileBlock(sizeBuf, headerBuf, blobBuf)\n\t\tif err == nil && blobHeader.GetType() != osmDataType {\n\t\t\terr = fmt.Errorf(\"unexpected fileblock of type %s\", blobHeader.GetType())\n\t\t}\n\n\t\tpair := iPair{Offset: offset, Blob: blob}\n\t\tif err != nil {\n\t\t\tpair = iPair{Err: err}\n\t\t}\n\n\t\tselect {\n\t\tcase input <- pair:\n\t\tcase <-dec.ctx.Done():\n\t\t}\n\t}\n}", ExpectRule: "B6", ExpectConstruct: "dispatch"},
 			{Name: "method-reader-first-passed-only-for-header-streams", File: "osmpbf/decode.go", Find: "\n\t// start reading OSMData\n\tgo func() {\n\t\tdefer dec.wg.Done()\n\t\tdefer func() {\n\t\t\tfor _, input := range dec.inputs {\n\t\t\t\tclose(input)\n\t\t\t}\n\t\t}()\n\n\t\tvar (\n\t\t\ti   int\n\t\t\terr error\n\t\t)\n\n\t\t// On restart the first block may not be a header and will need to be\n\t\t// added to the first input.\n\t\tif blobHeader.GetType() != osmHeaderType {\n\t\t\tdec.inputs[0] <- iPair{Offset: 0, Blob: blob, Err: err}\n\n\t\t\ti = (i + 1) % n\n\t\t}\n\n\t\tfor dec.ctx.Err() == nil && err == nil {\n\t\t\tinput := dec.inputs[i]\n\t\t\ti = (i + 1) % n\n\n\t\t\toffset := dec.bytesRead\n\t\t\tblobHeader, blob, err = dec.readFileBlock(sizeBuf, headerBuf, blobBuf)\n\t\t\tif err == nil && blobHeader.GetType() != osmDataType {\n\t\t\t\terr = fmt.Errorf(\"unexpected fileblock of type %s\", blobHeader.GetType())\n\t\t\t}\n\n\t\t\tpair := iPair{Offset: offset, Blob: blob}\n\t\t\tif err != nil {\n\t\t\t\tpair = iPair{Err: err}\n\t\t\t}\n\n\t\t\tselect {\n\t\t\tcase input <- pair:\n\t\t\tcase <-dec.ctx.Done():\n\t\t\t}\n\t\t}\n\t}()\n\n\tgo func() {\n\t\tdefer dec.wg.Done()\n\t\tdefer func() {\n\t\t\tclose(dec.serializer)\n\t\t\tdec.cancel()\n\t\t}()\n\n\t\tfor i := 0; ; i = (i + 1) % n {\n\t\t\toutput := dec.outputs[i]\n\n\t\t\tvar p oPair\n\t\t\tselect {\n\t\t\tcase p = <-output:\n\t\t\tcase <-dec.ctx.Done():\n\t\t\t\treturn\n\t\t\t}\n\n\t\t\tselect {\n\t\t\tcase dec.serializer <- p:\n\t\t\tcase <-dec.ctx.Done():\n\t\t\t\treturn\n\t\t\t}\n\n\t\t\tif p.Err != nil {\n\t\t\t\treturn\n\t\t\t}\n\t\t}\n\t}()\n\n\treturn nil\n}", Replace: "\n\t// the first block is left over for the reader when it is not the header\n\tvar first *osmpbf.Blob\n\tif blobHeader.GetType() == osmHeaderType {\n\t\tfirst = blob\n\t}\n\n\t// start reading OSMData\n\tgo dec.readBlocks(n, first, sizeBuf, headerBuf, blobBuf)\n\n\tgo func() {\n\t\tdefer dec.wg.Done()\n\t\tdefer func() {\n\t\t\tclose(dec.serializer)\n\t\t\tdec.cancel()\n\t\t}()\n\n\t\tfor i := 0; ; i = (i + 1) % n {\n\t\t\toutput := dec.outputs[i]\n\n\t\t\tvar p oPair\n\t\t\tselect {\n\t\t\tcase p = <-output:\n\t\t\tcase <-dec.ctx.Done():\n\t\t\t\treturn\n\t\t\t}\n\n\t\t\tselect {\n\t\t\tcase dec.serializer <- p:\n\t\t\tcase <-dec.ctx.Done():\n\t\t\t\treturn\n\t\t\t}\n\n\t\t\tif p.Err != nil {\n\t\t\t\treturn\n\t\t\t}\n\t\t}\n\t}()\n\n\treturn nil\n}\n\nfunc (dec *decoder) readBlocks(n int, first *osmpbf.Blob, sizeBuf, headerBuf, blobBuf []byte) {\n\tvar blobHeader *osmpbf.BlobHeader\n\tvar blob *osmpbf.Blob\n\tdefer dec.wg.Done()\n\tdefer func() {\n\t\tfor _, input := range dec.inputs {\n\t\t\tclose(input)\n\t\t}\n\t}()\n\n\tvar (\n\t\ti   int\n\t\terr error\n\t)\n\n\t// On restart the first block may not be a header and will need to be\n\t// added to the first input.\n\tif first != nil {\n\t\tdec.inputs[0] <- iPair{Offset: 0, Blob: first}\n\n\t\ti = (i + 1) % n\n\t}\n\n\tfor dec.ctx.Err() == nil && err == nil {\n\t\tinput := dec.inputs[i]\n\t\ti = (i + 1) % n\n\n\t\toffset := dec.bytesRead\n\t\tblobHeader, blob, err = dec.readFileBlock(sizeBuf, headerBuf, blobBuf)\n\t\tif err == nil && blobHeader.GetType() != osmDataType {\n\t\t\terr = fmt.Errorf(\"unexpected fileblock of type %s\", blobHeader.GetType())\n\t\t}\n\n\t\tpair := iPair{Offset: offset, Blob: blob}\n\t\tif err != nil {\n\t\t\tpair = iPair{Err: err}\n\t\t}\n\n\t\tselect {\n\t\tcase input <- pair:\n\t\tcase <-dec.ctx.Done():\n\t\t}\n\t}\n}", ExpectRule: "B6", ExpectConstruct: "dispatch"},
+			{Name: "split-state-previous-offset-not-saved", File: "osmpbf/decode.go", Find: "\tcOffset int64\n\tcData   oPair\n\tcIndex  int\n}\n\n// newDecoder returns a new decoder that reads from r.\nfunc newDecoder(ctx context.Context, s *Scanner, r io.Reader) *decoder {\n\tc, cancel := context.WithCancel(ctx)\n\treturn &decoder{\n\t\tscanner: s,\n\t\tctx:     c,\n\t\tcancel:  cancel,\n\t\tr:       r,\n\t}\n}\n\nfunc (dec *decoder) Close() error {\n\tdec.cancel()\n\tdec.wg.Wait()\n\treturn nil\n}\n\n// Start decoding process using n goroutines.\nfunc (dec *decoder) Start(n int) error {\n\tif n < 1 {\n\t\tn = 1\n\t}\n\tdec.serializer = make(chan oPair, n)\n\n\tsizeBuf := make([]byte, 4)\n\theaderBuf := make([]byte, maxBlobHeaderSize)\n\tblobBuf := make([]byte, maxBlobSize)\n\n\t// read OSMHeader\n\t// NOTE: if the first block is not a header, i.e. after a restart we need\n\t// to decode that block. It gets pushed on the first \"input\" below.\n\tblobHeader, blob, err := dec.readFileBlock(sizeBuf, headerBuf, blobBuf)\n\tif err != nil {\n\t\treturn err\n\t}\n\n\tif blobHeader.GetType() == osmHeaderType {\n\t\tvar err error\n\t\tdec.header, err = decodeOSMHeader(blob)\n\t\tif err != nil {\n\t\t\treturn err\n\t\t}\n\t}\n\n\tdec.wg.Add(n + 2)\n\n\t//use roughly 10 chanel inputs\n\tnumChanels := 10 / n\n\n\t// High level overview of the decoder:\n\t// The decoder supports parallel unzipping and protobuf decoding of all\n\t// the header blocks. On goroutine feeds the headerblocks round-robin into\n\t// the input channels. n goroutines read from the input channel, decode\n\t// the block and put the objects on their output channel. A third type of\n\t// goroutines round-robin reads the output channels and feads them into the\n\t// serializer channel to maintain the order of the objects in the file.\n\n\t// start data decoders\n\tfor i := 0; i < n; i++ {\n\t\tinput := make(chan iPair, numChanels)\n\t\toutput := make(chan oPair, numChanels)\n\n\t\tdd := &dataDecoder{scanner: dec.scanner}\n\n\t\tgo func() {\n\t\t\tdefer close(output)\n\t\t\tdefer dec.wg.Done()\n\n\t\t\tfor p := range input {\n\t\t\t\tvar out oPair\n\t\t\t\tif p.Err == nil {\n\t\t\t\t\t// send decoded objects or decoding error\n\t\t\t\t\tobjects, err := dd.Decode(p.Blob)\n\t\t\t\t\tout = oPair{Offset: p.Offset, Objects: objects, Err: err}\n\t\t\t\t} else {\n\t\t\t\t\tout = oPair{Err: p.Err} // send input error as is\n\t\t\t\t}\n\n\t\t\t\tselect {\n\t\t\t\tcase output <- out:\n\t\t\t\tcase <-dec.ctx.Done():\n\t\t\t\t}\n\t\t\t}\n\t\t}()\n\n\t\tdec.inputs = append(dec.inputs, input)\n\t\tdec.outputs = append(dec.outputs, output)\n\t}\n\n\t// start reading OSMData\n\tgo func() {\n\t\tdefer dec.wg.Done()\n\t\tdefer func() {\n\t\t\tfor _, input := range dec.inputs {\n\t\t\t\tclose(input)\n\t\t\t}\n\t\t}()\n\n\t\tvar (\n\t\t\ti   int\n\t\t\terr error\n\t\t)\n\n\t\t// On restart the first block may not be a header and will need to be\n\t\t// added to the first input.\n\t\tif blobHeader.GetType() != osmHeaderType {\n\t\t\tdec.inputs[0] <- iPair{Offset: 0, Blob: blob, Err: err}\n\n\t\t\ti = (i + 1) % n\n\t\t}\n\n\t\tfor dec.ctx.Err() == nil && err == nil {\n\t\t\tinput := dec.inputs[i]\n\t\t\ti = (i + 1) % n\n\n\t\t\toffset := dec.bytesRead\n\t\t\tblobHeader, blob, err = dec.readFileBlock(sizeBuf, headerBuf, blobBuf)\n\t\t\tif err == nil && blobHeader.GetType() != osmDataType {\n\t\t\t\terr = fmt.Errorf(\"unexpected fileblock of type %s\", blobHeader.GetType())\n\t\t\t}\n\n\t\t\tpair := iPair{Offset: offset, Blob: blob}\n\t\t\tif err != nil {\n\t\t\t\tpair = iPair{Err: err}\n\t\t\t}\n\n\t\t\tselect {\n\t\t\tcase input <- pair:\n\t\t\tcase <-dec.ctx.Done():\n\t\t\t}\n\t\t}\n\t}()\n\n\tgo func() {\n\t\tdefer dec.wg.Done()\n\t\tdefer func() {\n\t\t\tclose(dec.serializer)\n\t\t\tdec.cancel()\n\t\t}()\n\n\t\tfor i := 0; ; i = (i + 1) % n {\n\t\t\toutput := dec.outputs[i]\n\n\t\t\tvar p oPair\n\t\t\tselect {\n\t\t\tcase p = <-output:\n\t\t\tcase <-dec.ctx.Done():\n\t\t\t\treturn\n\t\t\t}\n\n\t\t\tselect {\n\t\t\tcase dec.serializer <- p:\n\t\t\tcase <-dec.ctx.Done():\n\t\t\t\treturn\n\t\t\t}\n\n\t\t\tif p.Err != nil {\n\t\t\t\treturn\n\t\t\t}\n\t\t}\n\t}()\n\n\treturn nil\n}\n\n// Next reads the next object from the input stream and returns either a\n// Node, Way or Relation struct representing the underlying OpenStreetMap PBF\n// data, or error encountered. The end of the input stream is reported by an io.EOF error.\nfunc (dec *decoder) Next() (osm.Object, error) {\n\tfor dec.cIndex >= len(dec.cData.Objects) {\n\t\tcd, ok := <-dec.serializer\n\t\tif !ok || cd.Err == io.EOF {\n\t\t\tif dec.cData.Err != nil {\n\t\t\t\treturn nil, dec.cData.Err\n\t\t\t}\n\n\t\t\t// The queue is closed without an error pair only when the\n\t\t\t// serializer stopped because the context was done.\n\t\t\tif err := dec.ctx.Err(); !ok && err != nil {\n\t\t\t\treturn nil, err\n\t\t\t}\n\t\t\treturn nil, io.EOF\n\t\t}\n\n\t\tdec.pOffset = dec.cOffset\n\t\tdec.cOffset = cd.Offset\n\t\tdec.cData = cd\n\t\tdec.cIndex = 0\n\t}\n\n\tv := dec.cData.Objects[dec.cIndex]\n\tdec.cIndex++\n\treturn v, dec.cData.Err\n}", Replace: "\tcOffset int64\n\tcObjects []osm.Object\n\tcErr     error\n\tcIndex  int\n}\n\n// newDecoder returns a new decoder that reads from r.\nfunc newDecoder(ctx context.Context, s *Scanner, r io.Reader) *decoder {\n\tc, cancel := context.WithCancel(ctx)\n\treturn &decoder{\n\t\tscanner: s,\n\t\tctx:     c,\n\t\tcancel:  cancel,\n\t\tr:       r,\n\t}\n}\n\nfunc (dec *decoder) Close() error {\n\tdec.cancel()\n\tdec.wg.Wait()\n\treturn nil\n}\n\n// Start decoding process using n goroutines.\nfunc (dec *decoder) Start(n int) error {\n\tif n < 1 {\n\t\tn = 1\n\t}\n\tdec.serializer = make(chan oPair, n)\n\n\tsizeBuf := make([]byte, 4)\n\theaderBuf := make([]byte, maxBlobHeaderSize)\n\tblobBuf := make([]byte, maxBlobSize)\n\n\t// read OSMHeader\n\t// NOTE: if the first block is not a header, i.e. after a restart we need\n\t// to decode that block. It gets pushed on the first \"input\" below.\n\tblobHeader, blob, err := dec.readFileBlock(sizeBuf, headerBuf, blobBuf)\n\tif err != nil {\n\t\treturn err\n\t}\n\n\tif blobHeader.GetType() == osmHeaderType {\n\t\tvar err error\n\t\tdec.header, err = decodeOSMHeader(blob)\n\t\tif err != nil {\n\t\t\treturn err\n\t\t}\n\t}\n\n\tdec.wg.Add(n + 2)\n\n\t//use roughly 10 chanel inputs\n\tnumChanels := 10 / n\n\n\t// High level overview of the decoder:\n\t// The decoder supports parallel unzipping and protobuf decoding of all\n\t// the header blocks. On goroutine feeds the headerblocks round-robin into\n\t// the input channels. n goroutines read from the input channel, decode\n\t// the block and put the objects on their output channel. A third type of\n\t// goroutines round-robin reads the output channels and feads them into the\n\t// serializer channel to maintain the order of the objects in the file.\n\n\t// start data decoders\n\tfor i := 0; i < n; i++ {\n\t\tinput := make(chan iPair, numChanels)\n\t\toutput := make(chan oPair, numChanels)\n\n\t\tdd := &dataDecoder{scanner: dec.scanner}\n\n\t\tgo func() {\n\t\t\tdefer close(output)\n\t\t\tdefer dec.wg.Done()\n\n\t\t\tfor p := range input {\n\t\t\t\tvar out oPair\n\t\t\t\tif p.Err == nil {\n\t\t\t\t\t// send decoded objects or decoding error\n\t\t\t\t\tobjects, err := dd.Decode(p.Blob)\n\t\t\t\t\tout = oPair{Offset: p.Offset, Objects: objects, Err: err}\n\t\t\t\t} else {\n\t\t\t\t\tout = oPair{Err: p.Err} // send input error as is\n\t\t\t\t}\n\n\t\t\t\tselect {\n\t\t\t\tcase output <- out:\n\t\t\t\tcase <-dec.ctx.Done():\n\t\t\t\t}\n\t\t\t}\n\t\t}()\n\n\t\tdec.inputs = append(dec.inputs, input)\n\t\tdec.outputs = append(dec.outputs, output)\n\t}\n\n\t// start reading OSMData\n\tgo func() {\n\t\tdefer dec.wg.Done()\n\t\tdefer func() {\n\t\t\tfor _, input := range dec.inputs {\n\t\t\t\tclose(input)\n\t\t\t}\n\t\t}()\n\n\t\tvar (\n\t\t\ti   int\n\t\t\terr error\n\t\t)\n\n\t\t// On restart the first block may not be a header and will need to be\n\t\t// added to the first input.\n\t\tif blobHeader.GetType() != osmHeaderType {\n\t\t\tdec.inputs[0] <- iPair{Offset: 0, Blob: blob, Err: err}\n\n\t\t\ti = (i + 1) % n\n\t\t}\n\n\t\tfor dec.ctx.Err() == nil && err == nil {\n\t\t\tinput := dec.inputs[i]\n\t\t\ti = (i + 1) % n\n\n\t\t\toffset := dec.bytesRead\n\t\t\tblobHeader, blob, err = dec.readFileBlock(sizeBuf, headerBuf, blobBuf)\n\t\t\tif err == nil && blobHeader.GetType() != osmDataType {\n\t\t\t\terr = fmt.Errorf(\"unexpected fileblock of type %s\", blobHeader.GetType())\n\t\t\t}\n\n\t\t\tpair := iPair{Offset: offset, Blob: blob}\n\t\t\tif err != nil {\n\t\t\t\tpair = iPair{Err: err}\n\t\t\t}\n\n\t\t\tselect {\n\t\t\tcase input <- pair:\n\t\t\tcase <-dec.ctx.Done():\n\t\t\t}\n\t\t}\n\t}()\n\n\tgo func() {\n\t\tdefer dec.wg.Done()\n\t\tdefer func() {\n\t\t\tclose(dec.serializer)\n\t\t\tdec.cancel()\n\t\t}()\n\n\t\tfor i := 0; ; i = (i + 1) % n {\n\t\t\toutput := dec.outputs[i]\n\n\t\t\tvar p oPair\n\t\t\tselect {\n\t\t\tcase p = <-output:\n\t\t\tcase <-dec.ctx.Done():\n\t\t\t\treturn\n\t\t\t}\n\n\t\t\tselect {\n\t\t\tcase dec.serializer <- p:\n\t\t\tcase <-dec.ctx.Done():\n\t\t\t\treturn\n\t\t\t}\n\n\t\t\tif p.Err != nil {\n\t\t\t\treturn\n\t\t\t}\n\t\t}\n\t}()\n\n\treturn nil\n}\n\n// Next reads the next object from the input stream and returns either a\n// Node, Way or Relation struct representing the underlying OpenStreetMap PBF\n// data, or error encountered. The end of the input stream is reported by an io.EOF error.\nfunc (dec *decoder) Next() (osm.Object, error) {\n\tfor dec.cIndex >= len(dec.cObjects) {\n\t\tcd, ok := <-dec.serializer\n\t\tif !ok || cd.Err == io.EOF {\n\t\t\tif dec.cErr != nil {\n\t\t\t\treturn nil, dec.cErr\n\t\t\t}\n\n\t\t\t// The queue is closed without an error pair only when the\n\t\t\t// serializer stopped because the context was done.\n\t\t\tif err := dec.ctx.Err(); !ok && err != nil {\n\t\t\t\treturn nil, err\n\t\t\t}\n\t\t\treturn nil, io.EOF\n\t\t}\n\n\t\tdec.cOffset = cd.Offset\n\t\tdec.cObjects, dec.cErr = cd.Objects, cd.Err\n\t\tdec.cIndex = 0\n\t}\n\n\tv := dec.cObjects[dec.cIndex]\n\tdec.cIndex++\n\treturn v, dec.cErr\n}", ExpectRule: "", ExpectConstruct: "previous-offset"},
+			{Name: "split-state-empty-block-skips-shift", File: "osmpbf/decode.go", Find: "\tcOffset int64\n\tcData   oPair\n\tcIndex  int\n}\n\n// newDecoder returns a new decoder that reads from r.\nfunc newDecoder(ctx context.Context, s *Scanner, r io.Reader) *decoder {\n\tc, cancel := context.WithCancel(ctx)\n\treturn &decoder{\n\t\tscanner: s,\n\t\tctx:     c,\n\t\tcancel:  cancel,\n\t\tr:       r,\n\t}\n}\n\nfunc (dec *decoder) Close() error {\n\tdec.cancel()\n\tdec.wg.Wait()\n\treturn nil\n}\n\n// Start decoding process using n goroutines.\nfunc (dec *decoder) Start(n int) error {\n\tif n < 1 {\n\t\tn = 1\n\t}\n\tdec.serializer = make(chan oPair, n)\n\n\tsizeBuf := make([]byte, 4)\n\theaderBuf := make([]byte, maxBlobHeaderSize)\n\tblobBuf := make([]byte, maxBlobSize)\n\n\t// read OSMHeader\n\t// NOTE: if the first block is not a header, i.e. after a restart we need\n\t// to decode that block. It gets pushed on the first \"input\" below.\n\tblobHeader, blob, err := dec.readFileBlock(sizeBuf, headerBuf, blobBuf)\n\tif err != nil {\n\t\treturn err\n\t}\n\n\tif blobHeader.GetType() == osmHeaderType {\n\t\tvar err error\n\t\tdec.header, err = decodeOSMHeader(blob)\n\t\tif err != nil {\n\t\t\treturn err\n\t\t}\n\t}\n\n\tdec.wg.Add(n + 2)\n\n\t//use roughly 10 chanel inputs\n\tnumChanels := 10 / n\n\n\t// High level overview of the decoder:\n\t// The decoder supports parallel unzipping and protobuf decoding of all\n\t// the header blocks. On goroutine feeds the headerblocks round-robin into\n\t// the input channels. n goroutines read from the input channel, decode\n\t// the block and put the objects on their output channel. A third type of\n\t// goroutines round-robin reads the output channels and feads them into the\n\t// serializer channel to maintain the order of the objects in the file.\n\n\t// start data decoders\n\tfor i := 0; i < n; i++ {\n\t\tinput := make(chan iPair, numChanels)\n\t\toutput := make(chan oPair, numChanels)\n\n\t\tdd := &dataDecoder{scanner: dec.scanner}\n\n\t\tgo func() {\n\t\t\tdefer close(output)\n\t\t\tdefer dec.wg.Done()\n\n\t\t\tfor p := range input {\n\t\t\t\tvar out oPair\n\t\t\t\tif p.Err == nil {\n\t\t\t\t\t// send decoded objects or decoding error\n\t\t\t\t\tobjects, err := dd.Decode(p.Blob)\n\t\t\t\t\tout = oPair{Offset: p.Offset, Objects: objects, Err: err}\n\t\t\t\t} else {\n\t\t\t\t\tout = oPair{Err: p.Err} // send input error as is\n\t\t\t\t}\n\n\t\t\t\tselect {\n\t\t\t\tcase output <- out:\n\t\t\t\tcase <-dec.ctx.Done():\n\t\t\t\t}\n\t\t\t}\n\t\t}()\n\n\t\tdec.inputs = append(dec.inputs, input)\n\t\tdec.outputs = append(dec.outputs, output)\n\t}\n\n\t// start reading OSMData\n\tgo func() {\n\t\tdefer dec.wg.Done()\n\t\tdefer func() {\n\t\t\tfor _, input := range dec.inputs {\n\t\t\t\tclose(input)\n\t\t\t}\n\t\t}()\n\n\t\tvar (\n\t\t\ti   int\n\t\t\terr error\n\t\t)\n\n\t\t// On restart the first block may not be a header and will need to be\n\t\t// added to the first input.\n\t\tif blobHeader.GetType() != osmHeaderType {\n\t\t\tdec.inputs[0] <- iPair{Offset: 0, Blob: blob, Err: err}\n\n\t\t\ti = (i + 1) % n\n\t\t}\n\n\t\tfor dec.ctx.Err() == nil && err == nil {\n\t\t\tinput := dec.inputs[i]\n\t\t\ti = (i + 1) % n\n\n\t\t\toffset := dec.bytesRead\n\t\t\tblobHeader, blob, err = dec.readFileBlock(sizeBuf, headerBuf, blobBuf)\n\t\t\tif err == nil && blobHeader.GetType() != osmDataType {\n\t\t\t\terr = fmt.Errorf(\"unexpected fileblock of type %s\", blobHeader.GetType())\n\t\t\t}\n\n\t\t\tpair := iPair{Offset: offset, Blob: blob}\n\t\t\tif err != nil {\n\t\t\t\tpair = iPair{Err: err}\n\t\t\t}\n\n\t\t\tselect {\n\t\t\tcase input <- pair:\n\t\t\tcase <-dec.ctx.Done():\n\t\t\t}\n\t\t}\n\t}()\n\n\tgo func() {\n\t\tdefer dec.wg.Done()\n\t\tdefer func() {\n\t\t\tclose(dec.serializer)\n\t\t\tdec.cancel()\n\t\t}()\n\n\t\tfor i := 0; ; i = (i + 1) % n {\n\t\t\toutput := dec.outputs[i]\n\n\t\t\tvar p oPair\n\t\t\tselect {\n\t\t\tcase p = <-output:\n\t\t\tcase <-dec.ctx.Done():\n\t\t\t\treturn\n\t\t\t}\n\n\t\t\tselect {\n\t\t\tcase dec.serializer <- p:\n\t\t\tcase <-dec.ctx.Done():\n\t\t\t\treturn\n\t\t\t}\n\n\t\t\tif p.Err != nil {\n\t\t\t\treturn\n\t\t\t}\n\t\t}\n\t}()\n\n\treturn nil\n}\n\n// Next reads the next object from the input stream and returns either a\n// Node, Way or Relation struct representing the underlying OpenStreetMap PBF\n// data, or error encountered. The end of the input stream is reported by an io.EOF error.\nfunc (dec *decoder) Next() (osm.Object, error) {\n\tfor dec.cIndex >= len(dec.cData.Objects) {\n\t\tcd, ok := <-dec.serializer\n\t\tif !ok || cd.Err == io.EOF {\n\t\t\tif dec.cData.Err != nil {\n\t\t\t\treturn nil, dec.cData.Err\n\t\t\t}\n\n\t\t\t// The queue is closed without an error pair only when the\n\t\t\t// serializer stopped because the context was done.\n\t\t\tif err := dec.ctx.Err(); !ok && err != nil {\n\t\t\t\treturn nil, err\n\t\t\t}\n\t\t\treturn nil, io.EOF\n\t\t}\n\n\t\tdec.pOffset = dec.cOffset\n\t\tdec.cOffset = cd.Offset\n\t\tdec.cData = cd\n\t\tdec.cIndex = 0\n\t}\n\n\tv := dec.cData.Objects[dec.cIndex]\n\tdec.cIndex++\n\treturn v, dec.cData.Err\n}", Replace: "\tcOffset int64\n\tcObjects []osm.Object\n\tcErr     error\n\tcIndex  int\n}\n\n// newDecoder returns a new decoder that reads from r.\nfunc newDecoder(ctx context.Context, s *Scanner, r io.Reader) *decoder {\n\tc, cancel := context.WithCancel(ctx)\n\treturn &decoder{\n\t\tscanner: s,\n\t\tctx:     c,\n\t\tcancel:  cancel,\n\t\tr:       r,\n\t}\n}\n\nfunc (dec *decoder) Close() error {\n\tdec.cancel()\n\tdec.wg.Wait()\n\treturn nil\n}\n\n// Start decoding process using n goroutines.\nfunc (dec *decoder) Start(n int) error {\n\tif n < 1 {\n\t\tn = 1\n\t}\n\tdec.serializer = make(chan oPair, n)\n\n\tsizeBuf := make([]byte, 4)\n\theaderBuf := make([]byte, maxBlobHeaderSize)\n\tblobBuf := make([]byte, maxBlobSize)\n\n\t// read OSMHeader\n\t// NOTE: if the first block is not a header, i.e. after a restart we need\n\t// to decode that block. It gets pushed on the first \"input\" below.\n\tblobHeader, blob, err := dec.readFileBlock(sizeBuf, headerBuf, blobBuf)\n\tif err != nil {\n\t\treturn err\n\t}\n\n\tif blobHeader.GetType() == osmHeaderType {\n\t\tvar err error\n\t\tdec.header, err = decodeOSMHeader(blob)\n\t\tif err != nil {\n\t\t\treturn err\n\t\t}\n\t}\n\n\tdec.wg.Add(n + 2)\n\n\t//use roughly 10 chanel inputs\n\tnumChanels := 10 / n\n\n\t// High level overview of the decoder:\n\t// The decoder supports parallel unzipping and protobuf decoding of all\n\t// the header blocks. On goroutine feeds the headerblocks round-robin into\n\t// the input channels. n goroutines read from the input channel, decode\n\t// the block and put the objects on their output channel. A third type of\n\t// goroutines round-robin reads the output channels and feads them into the\n\t// serializer channel to maintain the order of the objects in the file.\n\n\t// start data decoders\n\tfor i := 0; i < n; i++ {\n\t\tinput := make(chan iPair, numChanels)\n\t\toutput := make(chan oPair, numChanels)\n\n\t\tdd := &dataDecoder{scanner: dec.scanner}\n\n\t\tgo func() {\n\t\t\tdefer close(output)\n\t\t\tdefer dec.wg.Done()\n\n\t\t\tfor p := range input {\n\t\t\t\tvar out oPair\n\t\t\t\tif p.Err == nil {\n\t\t\t\t\t// send decoded objects or decoding error\n\t\t\t\t\tobjects, err := dd.Decode(p.Blob)\n\t\t\t\t\tout = oPair{Offset: p.Offset, Objects: objects, Err: err}\n\t\t\t\t} else {\n\t\t\t\t\tout = oPair{Err: p.Err} // send input error as is\n\t\t\t\t}\n\n\t\t\t\tselect {\n\t\t\t\tcase output <- out:\n\t\t\t\tcase <-dec.ctx.Done():\n\t\t\t\t}\n\t\t\t}\n\t\t}()\n\n\t\tdec.inputs = append(dec.inputs, input)\n\t\tdec.outputs = append(dec.outputs, output)\n\t}\n\n\t// start reading OSMData\n\tgo func() {\n\t\tdefer dec.wg.Done()\n\t\tdefer func() {\n\t\t\tfor _, input := range dec.inputs {\n\t\t\t\tclose(input)\n\t\t\t}\n\t\t}()\n\n\t\tvar (\n\t\t\ti   int\n\t\t\terr error\n\t\t)\n\n\t\t// On restart the first block may not be a header and will need to be\n\t\t// added to the first input.\n\t\tif blobHeader.GetType() != osmHeaderType {\n\t\t\tdec.inputs[0] <- iPair{Offset: 0, Blob: blob, Err: err}\n\n\t\t\ti = (i + 1) % n\n\t\t}\n\n\t\tfor dec.ctx.Err() == nil && err == nil {\n\t\t\tinput := dec.inputs[i]\n\t\t\ti = (i + 1) % n\n\n\t\t\toffset := dec.bytesRead\n\t\t\tblobHeader, blob, err = dec.readFileBlock(sizeBuf, headerBuf, blobBuf)\n\t\t\tif err == nil && blobHeader.GetType() != osmDataType {\n\t\t\t\terr = fmt.Errorf(\"unexpected fileblock of type %s\", blobHeader.GetType())\n\t\t\t}\n\n\t\t\tpair := iPair{Offset: offset, Blob: blob}\n\t\t\tif err != nil {\n\t\t\t\tpair = iPair{Err: err}\n\t\t\t}\n\n\t\t\tselect {\n\t\t\tcase input <- pair:\n\t\t\tcase <-dec.ctx.Done():\n\t\t\t}\n\t\t}\n\t}()\n\n\tgo func() {\n\t\tdefer dec.wg.Done()\n\t\tdefer func() {\n\t\t\tclose(dec.serializer)\n\t\t\tdec.cancel()\n\t\t}()\n\n\t\tfor i := 0; ; i = (i + 1) % n {\n\t\t\toutput := dec.outputs[i]\n\n\t\t\tvar p oPair\n\t\t\tselect {\n\t\t\tcase p = <-output:\n\t\t\tcase <-dec.ctx.Done():\n\t\t\t\treturn\n\t\t\t}\n\n\t\t\tselect {\n\t\t\tcase dec.serializer <- p:\n\t\t\tcase <-dec.ctx.Done():\n\t\t\t\treturn\n\t\t\t}\n\n\t\t\tif p.Err != nil {\n\t\t\t\treturn\n\t\t\t}\n\t\t}\n\t}()\n\n\treturn nil\n}\n\n// Next reads the next object from the input stream and returns either a\n// Node, Way or Relation struct representing the underlying OpenStreetMap PBF\n// data, or error encountered. The end of the input stream is reported by an io.EOF error.\nfunc (dec *decoder) Next() (osm.Object, error) {\n\tfor dec.cIndex >= len(dec.cObjects) {\n\t\tcd, ok := <-dec.serializer\n\t\tif !ok || cd.Err == io.EOF {\n\t\t\tif dec.cErr != nil {\n\t\t\t\treturn nil, dec.cErr\n\t\t\t}\n\n\t\t\t// The queue is closed without an error pair only when the\n\t\t\t// serializer stopped because the context was done.\n\t\t\tif err := dec.ctx.Err(); !ok && err != nil {\n\t\t\t\treturn nil, err\n\t\t\t}\n\t\t\treturn nil, io.EOF\n\t\t}\n\n\t\tif len(cd.Objects) == 0 && cd.Err == nil {\n\t\t\tcontinue\n\t\t}\n\n\t\tdec.pOffset = dec.cOffset\n\t\tdec.cOffset = cd.Offset\n\t\tdec.cObjects, dec.cErr = cd.Objects, cd.Err\n\t\tdec.cIndex = 0\n\t}\n\n\tv := dec.cObjects[dec.cIndex]\n\tdec.cIndex++\n\treturn v, dec.cErr\n}", ExpectRule: "B4", ExpectConstruct: "shift-only-on-new-block"},
+			{Name: "pending-pair-nonzero-offset", File: "osmpbf/decode.go", Find: "\n\tif blobHeader.GetType() == osmHeaderType {\n\t\tvar err error\n\t\tdec.header, err = decodeOSMHeader(blob)\n\t\tif err != nil {\n\t\t\treturn err\n\t\t}\n\t}\n\n\tdec.wg.Add(n + 2)\n\n\t//use roughly 10 chanel inputs\n\tnumChanels := 10 / n\n\n\t// High level overview of the decoder:\n\t// The decoder supports parallel unzipping and protobuf decoding of all\n\t// the header blocks. On goroutine feeds the headerblocks round-robin into\n\t// the input channels. n goroutines read from the input channel, decode\n\t// the block and put the objects on their output channel. A third type of\n\t// goroutines round-robin reads the output channels and feads them into the\n\t// serializer channel to maintain the order of the objects in the file.\n\n\t// start data decoders\n\tfor i := 0; i < n; i++ {\n\t\tinput := make(chan iPair, numChanels)\n\t\toutput := make(chan oPair, numChanels)\n\n\t\tdd := &dataDecoder{scanner: dec.scanner}\n\n\t\tgo func() {\n\t\t\tdefer close(output)\n\t\t\tdefer dec.wg.Done()\n\n\t\t\tfor p := range input {\n\t\t\t\tvar out oPair\n\t\t\t\tif p.Err == nil {\n\t\t\t\t\t// send decoded objects or decoding error\n\t\t\t\t\tobjects, err := dd.Decode(p.Blob)\n\t\t\t\t\tout = oPair{Offset: p.Offset, Objects: objects, Err: err}\n\t\t\t\t} else {\n\t\t\t\t\tout = oPair{Err: p.Err} // send input error as is\n\t\t\t\t}\n\n\t\t\t\tselect {\n\t\t\t\tcase output <- out:\n\t\t\t\tcase <-dec.ctx.Done():\n\t\t\t\t}\n\t\t\t}\n\t\t}()\n\n\t\tdec.inputs = append(dec.inputs, input)\n\t\tdec.outputs = append(dec.outputs, output)\n\t}\n\n\t// start reading OSMData\n\tgo func() {\n\t\tdefer dec.wg.Done()\n\t\tdefer func() {\n\t\t\tfor _, input := range dec.inputs {\n\t\t\t\tclose(input)\n\t\t\t}\n\t\t}()\n\n\t\tvar (\n\t\t\ti   int\n\t\t\terr error\n\t\t)\n\n\t\t// On restart the first block may not be a header and will need to be\n\t\t// added to the first input.\n\t\tif blobHeader.GetType() != osmHeaderType {\n\t\t\tdec.inputs[0] <- iPair{Offset: 0, Blob: blob, Err: err}\n", Replace: "\n\tvar pending *iPair\n\tif blobHeader.GetType() == osmHeaderType {\n\t\tvar err error\n\t\tdec.header, err = decodeOSMHeader(blob)\n\t\tif err != nil {\n\t\t\treturn err\n\t\t}\n\t} else {\n\t\tpending = &iPair{Offset: dec.bytesRead, Blob: blob}\n\t}\n\n\tdec.wg.Add(n + 2)\n\n\t//use roughly 10 chanel inputs\n\tnumChanels := 10 / n\n\n\t// High level overview of the decoder:\n\t// The decoder supports parallel unzipping and protobuf decoding of all\n\t// the header blocks. On goroutine feeds the headerblocks round-robin into\n\t// the input channels. n goroutines read from the input channel, decode\n\t// the block and put the objects on their output channel. A third type of\n\t// goroutines round-robin reads the output channels and feads them into the\n\t// serializer channel to maintain the order of the objects in the file.\n\n\t// start data decoders\n\tfor i := 0; i < n; i++ {\n\t\tinput := make(chan iPair, numChanels)\n\t\toutput := make(chan oPair, numChanels)\n\n\t\tdd := &dataDecoder{scanner: dec.scanner}\n\n\t\tgo func() {\n\t\t\tdefer close(output)\n\t\t\tdefer dec.wg.Done()\n\n\t\t\tfor p := range input {\n\t\t\t\tvar out oPair\n\t\t\t\tif p.Err == nil {\n\t\t\t\t\t// send decoded objects or decoding error\n\t\t\t\t\tobjects, err := dd.Decode(p.Blob)\n\t\t\t\t\tout = oPair{Offset: p.Offset, Objects: objects, Err: err}\n\t\t\t\t} else {\n\t\t\t\t\tout = oPair{Err: p.Err} // send input error as is\n\t\t\t\t}\n\n\t\t\t\tselect {\n\t\t\t\tcase output <- out:\n\t\t\t\tcase <-dec.ctx.Done():\n\t\t\t\t}\n\t\t\t}\n\t\t}()\n\n\t\tdec.inputs = append(dec.inputs, input)\n\t\tdec.outputs = append(dec.outputs, output)\n\t}\n\n\t// start reading OSMData\n\tgo func() {\n\t\tdefer dec.wg.Done()\n\t\tdefer func() {\n\t\t\tfor _, input := range dec.inputs {\n\t\t\t\tclose(input)\n\t\t\t}\n\t\t}()\n\n\t\tvar (\n\t\t\ti   int\n\t\t\terr error\n\t\t)\n\n\t\t// On restart the first block may not be a header and will need to be\n\t\t// added to the first input.\n\t\tif pending != nil {\n\t\t\tdec.inputs[0] <- *pending\n", ExpectRule: "B2", ExpectConstruct: "restart"},
+			{Name: "pending-pair-built-for-header-streams-too", File: "osmpbf/decode.go", Find: "\n\tif blobHeader.GetType() == osmHeaderType {\n\t\tvar err error\n\t\tdec.header, err = decodeOSMHeader(blob)\n\t\tif err != nil {\n\t\t\treturn err\n\t\t}\n\t}\n\n\tdec.wg.Add(n + 2)\n\n\t//use roughly 10 chanel inputs\n\tnumChanels := 10 / n\n\n\t// High level overview of the decoder:\n\t// The decoder supports parallel unzipping and protobuf decoding of all\n\t// the header blocks. On goroutine feeds the headerblocks round-robin into\n\t// the input channels. n goroutines read from the input channel, decode\n\t// the block and put the objects on their output channel. A third type of\n\t// goroutines round-robin reads the output channels and feads them into the\n\t// serializer channel to maintain the order of the objects in the file.\n\n\t// start data decoders\n\tfor i := 0; i < n; i++ {\n\t\tinput := make(chan iPair, numChanels)\n\t\toutput := make(chan oPair, numChanels)\n\n\t\tdd := &dataDecoder{scanner: dec.scanner}\n\n\t\tgo func() {\n\t\t\tdefer close(output)\n\t\t\tdefer dec.wg.Done()\n\n\t\t\tfor p := range input {\n\t\t\t\tvar out oPair\n\t\t\t\tif p.Err == nil {\n\t\t\t\t\t// send decoded objects or decoding error\n\t\t\t\t\tobjects, err := dd.Decode(p.Blob)\n\t\t\t\t\tout = oPair{Offset: p.Offset, Objects: objects, Err: err}\n\t\t\t\t} else {\n\t\t\t\t\tout = oPair{Err: p.Err} // send input error as is\n\t\t\t\t}\n\n\t\t\t\tselect {\n\t\t\t\tcase output <- out:\n\t\t\t\tcase <-dec.ctx.Done():\n\t\t\t\t}\n\t\t\t}\n\t\t}()\n\n\t\tdec.inputs = append(dec.inputs, input)\n\t\tdec.outputs = append(dec.outputs, output)\n\t}\n\n\t// start reading OSMData\n\tgo func() {\n\t\tdefer dec.wg.Done()\n\t\tdefer func() {\n\t\t\tfor _, input := range dec.inputs {\n\t\t\t\tclose(input)\n\t\t\t}\n\t\t}()\n\n\t\tvar (\n\t\t\ti   int\n\t\t\terr error\n\t\t)\n\n\t\t// On restart the first block may not be a header and will need to be\n\t\t// added to the first input.\n\t\tif blobHeader.GetType() != osmHeaderType {\n\t\t\tdec.inputs[0] <- iPair{Offset: 0, Blob: blob, Err: err}\n", Replace: "\n\tvar pending *iPair\n\tif blobHeader.GetType() == osmHeaderType {\n\t\tvar err error\n\t\tdec.header, err = decodeOSMHeader(blob)\n\t\tif err != nil {\n\t\t\treturn err\n\t\t}\n\t}\n\tpending = &iPair{Offset: 0, Blob: blob}\n\n\tdec.wg.Add(n + 2)\n\n\t//use roughly 10 chanel inputs\n\tnumChanels := 10 / n\n\n\t// High level overview of the decoder:\n\t// The decoder supports parallel unzipping and protobuf decoding of all\n\t// the header blocks. On goroutine feeds the headerblocks round-robin into\n\t// the input channels. n goroutines read from the input channel, decode\n\t// the block and put the objects on their output channel. A third type of\n\t// goroutines round-robin reads the output channels and feads them into the\n\t// serializer channel to maintain the order of the objects in the file.\n\n\t// start data decoders\n\tfor i := 0; i < n; i++ {\n\t\tinput := make(chan iPair, numChanels)\n\t\toutput := make(chan oPair, numChanels)\n\n\t\tdd := &dataDecoder{scanner: dec.scanner}\n\n\t\tgo func() {\n\t\t\tdefer close(output)\n\t\t\tdefer dec.wg.Done()\n\n\t\t\tfor p := range input {\n\t\t\t\tvar out oPair\n\t\t\t\tif p.Err == nil {\n\t\t\t\t\t// send decoded objects or decoding error\n\t\t\t\t\tobjects, err := dd.Decode(p.Blob)\n\t\t\t\t\tout = oPair{Offset: p.Offset, Objects: objects, Err: err}\n\t\t\t\t} else {\n\t\t\t\t\tout = oPair{Err: p.Err} // send input error as is\n\t\t\t\t}\n\n\t\t\t\tselect {\n\t\t\t\tcase output <- out:\n\t\t\t\tcase <-dec.ctx.Done():\n\t\t\t\t}\n\t\t\t}\n\t\t}()\n\n\t\tdec.inputs = append(dec.inputs, input)\n\t\tdec.outputs = append(dec.outputs, output)\n\t}\n\n\t// start reading OSMData\n\tgo func() {\n\t\tdefer dec.wg.Done()\n\t\tdefer func() {\n\t\t\tfor _, input := range dec.inputs {\n\t\t\t\tclose(input)\n\t\t\t}\n\t\t}()\n\n\t\tvar (\n\t\t\ti   int\n\t\t\terr error\n\t\t)\n\n\t\t// On restart the first block may not be a header and will need to be\n\t\t// added to the first input.\n\t\tif pending != nil {\n\t\t\tdec.inputs[0] <- *pending\n", ExpectRule: "B6", ExpectConstruct: "dispatch"},
 			{Name: "accessors-swapped", File: "osmpbf/scanner.go", Find: "func (s *Scanner) FullyScannedBytes() int64 {\n\treturn atomic.LoadInt64(&s.decoder.cOffset)", Replace: "func (s *Scanner) FullyScannedBytes() int64 {\n\treturn atomic.LoadInt64(&s.decoder.pOffset)", ExpectRule: "B5", ExpectConstruct: "FullyScannedBytes"},
 			{Name: "accessor-returns-bytesRead", File: "osmpbf/scanner.go", Find: "func (s *Scanner) FullyScannedBytes() int64 {\n\treturn atomic.LoadInt64(&s.decoder.cOffset)", Replace: "func (s *Scanner) FullyScannedBytes() int64 {\n\treturn atomic.LoadInt64(&s.decoder.bytesRead)", ExpectRule: "B5", ExpectConstruct: "FullyScannedBytes"},
 			{Name: "restart-block-dropped", File: "osmpbf/decode.go", Find: "\t\t\tdec.inputs[0] <- iPair{Offset: 0, Blob: blob, Err: err}\n\n\t\t\ti = (i + 1) % n\n", Replace: "\t\t\t_ = blob\n", ExpectRule: "B6", ExpectConstruct: "dispatch"},
@@ -86,8 +90,37 @@ func c09ChanElem(f *types.Var) *types.Named {
 	if !ok {
 		return nil
 	}
-	nt, _ := ch.Elem().(*types.Named)
+	et := ch.Elem()
+	if pt, ok := et.(*types.Pointer); ok {
+		et = pt.Elem() // a channel of pointers to pairs
+	}
+	nt, _ := et.(*types.Named)
 	return nt
+}
+
+// c09DecoderField returns the field selected by e when the selection chain is rooted in a value of the decoder type:
+// a field of the decoder itself, or a field of a struct the decoder embeds by value as one of its fields
+// (`dec.off.cur`: offsets grouped in a struct). It returns the innermost (leaf) field.
+func c09DecoderField(m *pbfModel, e ast.Expr) *types.Var {
+	e = ast.Unparen(e)
+	fl := fieldOf(m.info, e)
+	if fl == nil {
+		return nil
+	}
+	for x := e; ; {
+		sel, ok := ast.Unparen(x).(*ast.SelectorExpr)
+		if !ok || fieldOf(m.info, sel) == nil {
+			return nil
+		}
+		if namedPath(selRecv(m.info, sel)) == namedPath(m.decoderT) {
+			return fl
+		}
+		// only through struct-valued fields (no pointers to elsewhere, no indexing)
+		if _, isStruct := m.info.TypeOf(sel.X).Underlying().(*types.Struct); !isStruct {
+			return nil
+		}
+		x = sel.X
+	}
 }
 
 func c09FieldOfKind(nt *types.Named, pred func(types.Type) bool) *types.Var {
@@ -130,11 +163,7 @@ func c09Resolve(r *core.R, m *pbfModel) *c09Fields {
 		return nil
 	}
 	isDecField := func(e ast.Expr) *types.Var {
-		fl := fieldOf(info, e)
-		if fl == nil || namedPath(selRecv(info, ast.Unparen(e))) != namedPath(m.decoderT) {
-			return nil
-		}
-		return fl
+		return c09DecoderField(m, e)
 	}
 	// counter: written by += (or f = f + ..) in a unit that the reader role runs
 	for _, u := range m.sortedUnits() {
